@@ -45,23 +45,6 @@ fn code_to_version(code: u16) -> TlsVersion {
 }
 #[kani::proof]
 #[kani::unwind(20)]
-fn c04_version_from_supported_versions() {
-    let (v1, v2): (u16, u16) = (kani::any(), kani::any());
-    let legacy: u16 = kani::any();
-    let ext: [u8; 9] = [0x00, 0x2b, 0x00, 0x05, 0x04, (v1 >> 8) as u8, v1 as u8, (v2 >> 8) as u8, v2 as u8];
-    let random = [0u8; 32];
-    let ch = TlsClientHelloContents::new(legacy, &random, None, vec![TlsCipherSuiteID(0x1301)], vec![TlsCompressionID(0)], Some(&ext));
-    let sig = extract_tls_signature_from_client_hello(&ch).unwrap();
-    // highest non-GREASE entry of the list; the legacy field is ignored when the list has one
-    let best = if is_grease(v1) && is_grease(v2) { None }
-        else if is_grease(v1) { Some(v2) } else if is_grease(v2) { Some(v1) } else { Some(if v1 > v2 { v1 } else { v2 }) };
-    if let Some(code) = best {
-        assert!(sig.version == code_to_version(code));
-    }
-    assert!(sig.extensions.len() == 1 && sig.extensions[0] == 0x002b);
-}
-#[kani::proof]
-#[kani::unwind(20)]
 fn c04_version_without_extension() {
     let legacy: u16 = kani::any();
     let random = [0u8; 32];
